@@ -228,9 +228,24 @@ def check_case(rec, case):
     hint = case.get('hint', 'S')
     for (name, args) in (('cfg_add_new_start_variable', (hint,)), ('cfg_remove_epsilon_rules', ()), ('cfg_eliminate_unit_rules', ()),
                          ('cfg_make_rules_of_length_two', ()), ('cfg_eliminate_terminals', ())):
-        o = call(getattr(ca, name), G(), *args)
+        G0 = G()
+        o = call(getattr(ca, name), G0, *args)
         if not o.ok:
             report_failure(rec, o, name, grammar=cf.show(RG))
+            continue
+        # the conversion continued on the RESULT with the in-place phases (as a pipeline does): the input of the copying phase
+        # must still be untouched afterwards
+        G1 = o.value
+        order = ['cfg_add_new_start_variable', 'cfg_remove_epsilon_rules', 'cfg_eliminate_unit_rules', 'cfg_make_rules_of_length_two', 'cfg_eliminate_terminals']
+        later = [x + '_in_place' for x in order[order.index(name) + 1:]]         # only the LATER phases, in the order of the conversion
+        for ph in later:
+            o2 = call(getattr(ca, ph), G1)
+            if not o2.ok:
+                break
+        rec.ev('pipeline_input_untouched')
+        if adapt.cfg_ref(G0) != RG:
+            rec.violation(name + ':input_changed_by_later_phases_on_the_result', 'after %s(G) the in-place phases applied to its RESULT changed G: the result is not an independent grammar' % name,
+                          before=cf.show(RG), after=cf.show(adapt.cfg_ref(G0)))
     for phase in range(0, 6):
         g = G()
         o = call(nc.cfg_apply_chomsky, g, phase, case.get('start_variable', 'T'))
